@@ -1,8 +1,11 @@
 """C02 — abrupt worker death is detected and fails the pool loudly."""
 from ..ech import H
 
-LEVEL = "other"
+LEVEL = "model_checking"
+ENGINE = "E-CH+E-TS"
 EXPLANATION = (
+    "E-TS slice: the real terminate_broken -> kill_workers -> join_executor_internals compiled from the AST, from any "
+    "consistent bookkeeping state incl. user-cancelled futures (bounded model checking, replayed on the real code). "
     "Step contracts on the real manager-thread methods (CrossHair/z3): the full decision table of "
     "wait_result_broken_or_wakeup (symbolic readiness subset of {result pipe, wakeup pipe, sentinels}, symbolic kind "
     "of received item, symbolic exit code), terminate_broken / kill_workers / join_executor_internals from an "
@@ -19,9 +22,15 @@ M = "lokyverif.harness.c02_broken"
 PE = "loky.process_executor:_ExecutorManagerThread."
 
 
+def SL(name, builder, K, timeout_s=1500, params=None):
+    return ("lokyverif.ets.units_exec", "slice_unit", dict(prop="C02", name=name, builder=builder, K=K,
+                                                            timeout_s=timeout_s, params=params))
+
+
 def units(tier):
     t = 1200 if tier == "thorough" else 400
     return [
+        SL("slice.terminate_broken", "x6_terminate_broken", 44),
         H("C02", M, "check_wait_table", t, [PE + "wait_result_broken_or_wakeup", "loky.backend.utils:get_exitcodes_terminated_worker", "loky.backend.utils:_format_exitcodes"],
           "1..2 workers, readiness subset symbolic, item kind in {result, pid, remote traceback, garbled}, exit code -15..3"),
         H("C02", M, "check_exitcode_names", t, ["loky.backend.utils:_format_exitcodes", "loky.backend.utils:_get_exitcode_name"], "exit codes -64..255"),
